@@ -158,7 +158,11 @@ func VH_C20_batchItem() {
 	m.setup()
 	var slotErr error
 	var slotIsErr bool
-	b := NewBatchNode().WithMaxRetries(m.budget).WithWait(m.w).
+	conc := vChoice("concurrency", vParam("cmax", 0)+1) // the pooled path runs the same per-item loop on a worker
+	if conc > 0 {
+		vCover("pooled")
+	}
+	b := NewBatchNode().WithMaxRetries(m.budget).WithWait(m.w).WithBatchConcurrency(conc).
 		WithPrepFunc(func(ctx context.Context, s *SharedStore) ([]Result, error) {
 			vMon(func() { m.prepAt = vNow() })
 			return []Result{NewResult(1)}, nil
